@@ -20,3 +20,12 @@ package base
 //@   trusted
 //@   pure
 //@   ensures w == chain_wallet(c) && w != nil
+
+// C07: the timestamp rule of a block version, as a predicate over (block, parent)
+//@ property C07
+//@ smt all (declare-fun ts_rule (Iface Iface) Bool)
+//@ func (b BlockVersionSpec) VerifyTimestamp(prev, prevVoters) (err)
+//@   iface
+//@   trusted
+//@   pure
+//@   ensures err == nil ==> ts_rule(b, prev)
